@@ -54,7 +54,13 @@ def _job_system(g, job):
     return out
 
 
-JOBS = {"atomgraph": _job_atomgraph, "molecule": _job_molecule, "system": _job_system}
+def _job_typing(g, job):
+    from .props import c20
+
+    return [json.loads(json.dumps(c20.baseline_typing({"text": job["text"], "seed": seed}))) for seed in job["seeds"]]
+
+
+JOBS = {"atomgraph": _job_atomgraph, "molecule": _job_molecule, "system": _job_system, "typing": _job_typing}
 
 
 def run_job(g, job):
@@ -62,6 +68,8 @@ def run_job(g, job):
     from .seams import DrawDiverges, World
     from .simrng import BudgetExceeded, Scheduler, SimAbort
 
+    if job["job"] == "typing":
+        return {"ok": _job_typing(g, job)}  # (brings its own world: simulated file layer)
     w = World(Scheduler(1), embed="stub")
     with w:
         try:
